@@ -22,6 +22,7 @@ pub fn run(ctx: &Ctx, rep: &mut Report) -> bool {
         "c02" | "c03" | "c04" | "c05" | "c08" | "c09" => server::run(ctx, rep, &ctx.prop),
         "c06" => zone::run_c06(ctx, rep),
         "c10" => tsig::run_c10(ctx, rep),
+        "c29" => pool::run(ctx, rep),
         "c23" => zonefile::run_c23(ctx, rep),
         "c24" => zonefile::run_c24(ctx, rep),
         "c25" => zonefile::run_c25(ctx, rep),
@@ -67,3 +68,4 @@ pub fn debug_request(hexreq: &str, tcp: bool) {
     }
 }
 pub mod zonefile;
+pub mod pool;
